@@ -210,16 +210,26 @@ def slashQueue (q : List Unbonding) (v : String) (rem : Dec) : List Unbonding :=
 /-- `Decimal::one() - percentage` -/
 def remOf (pct : Dec) : Dec := Dec.sub Dec.one pct
 
-/-- `slash` after `update_rewards` and the `unwrap` (staking.rs:492-531) -/
+/-- the `total_shares` accumulator of `slash`: Σ of the stake atomics of the records of validator `v` owned by
+`stakers` (the loop visits every member of the staker set once and loads a different record each time) -/
+def sumShares (stakes : KMap (Addr × String) Shares) (v : String) (stakers : List Addr) : Nat :=
+  ((stakes.filter fun p => p.1.2 = v ∧ p.1.1 ∈ stakers).map (·.2.stake.atomics)).sum
+
+/-- `slash` after `update_rewards` and the `unwrap` (staking.rs:492-541, as fixed by c602f29): every staker's share
+is scaled first (`expect` on a missing record), the validator total becomes the whole tokens of the sum of the scaled
+shares, and only if that is zero all records of the validator are removed (removing the scaled records of the
+stakers leaves the same list as removing the unscaled ones) -/
 def applySlash (s : SState) (v : String) (vi : ValInfo) (rem : Dec) : Outcome SState :=
-  if Dec.mulFloor vi.stake rem = 0 then
-    .ok { s with stakes := removeAll s.stakes v vi.stakers,
-                 queue := slashQueue s.queue v rem,
-                 vinfo := KMap.set s.vinfo v { vi with stake := 0, stakers := [] } }
-  else if allStakersExist s.stakes v vi.stakers then
-    .ok { s with stakes := scaleAll s.stakes v vi.stakers rem,
-                 queue := slashQueue s.queue v rem,
-                 vinfo := KMap.set s.vinfo v { vi with stake := Dec.mulFloor vi.stake rem } }
+  if allStakersExist s.stakes v vi.stakers then
+    if sumShares (scaleAll s.stakes v vi.stakers rem) v vi.stakers / Dec.ONE = 0 then
+      .ok { s with stakes := removeAll s.stakes v vi.stakers,
+                   queue := slashQueue s.queue v rem,
+                   vinfo := KMap.set s.vinfo v { vi with stake := 0, stakers := [] } }
+    else
+      .ok { s with stakes := scaleAll s.stakes v vi.stakers rem,
+                   queue := slashQueue s.queue v rem,
+                   vinfo := KMap.set s.vinfo v
+                     { vi with stake := sumShares (scaleAll s.stakes v vi.stakers rem) v vi.stakers / Dec.ONE } }
   else .panic                                 -- `expect` (staking.rs:509)
 
 /-- `slash` (staking.rs:476-532); `percentage ≤ 1` was checked by the caller -/
